@@ -20,10 +20,14 @@ static T tanB(Ctx& c) { return draw_tangent<G>(c.thc2, c.linc2, "generic", c.r);
 
 #define HEAD(E) head<G>(E, c.pl, c.prop.c_str()); Out& o = out();
 
+// optional outputs: when Jacobians are planned, a random NON-EMPTY SUBSET of them is requested (C05 holds for
+// every subset; C09 checks that the subset does not matter)
+static int pick_mask(Ctx& c) { return c.jac ? c.r.i(1, 3) : 0; }
+static tl::optional<Eigen::Ref<Jac>> opt(Jac& J, bool on) { if (!on) return {}; return tl::optional<Eigen::Ref<Jac>>(J); }
 static void op_compose(Ctx& c) {
-  G X = elemA(c), Y = elemD(c); Jac Ja, Jb; G R = c.jac ? X.compose(Y, Ja, Jb) : X.compose(Y);
+  G X = elemA(c), Y = elemD(c); Jac Ja, Jb; int m = pick_mask(c); G R = X.compose(Y, opt(Ja, m & 1), opt(Jb, m & 2));
   HEAD("compose") o.vec("a", X.coeffs()); o.vec("b", Y.coeffs()); o.vec("r", R.coeffs());
-  if (c.jac) { o.mat("Ja", Ja); o.mat("Jb", Jb); } o.end();
+  if (m & 1) o.mat("Ja", Ja); if (m & 2) o.mat("Jb", Jb); o.end();
 }
 static void op_inverse(Ctx& c) {
   G X = elemA(c); Jac Ja; G R = c.jac ? X.inverse(Ja) : X.inverse();
@@ -32,8 +36,10 @@ static void op_inverse(Ctx& c) {
 static void op_act(Ctx& c) {
   G X = elemA(c); Vec p = draw_point<Vec>(c.linc2, c.r);
   Eigen::Matrix<S, G::Dim, G::DoF> Ja; Eigen::Matrix<S, G::Dim, G::Dim> Jp;
-  Vec v = c.jac ? X.act(p, Ja, Jp) : X.act(p);
-  HEAD("act") o.vec("a", X.coeffs()); o.vec("pt", p); o.vec("rv", v); if (c.jac) { o.mat("Ja", Ja); o.mat("Jp", Jp); } o.end();
+  int m = pick_mask(c);
+  Vec v = X.act(p, (m & 1) ? tl::optional<Eigen::Ref<Eigen::Matrix<S, G::Dim, G::DoF>>>(Ja) : tl::optional<Eigen::Ref<Eigen::Matrix<S, G::Dim, G::DoF>>>(),
+                   (m & 2) ? tl::optional<Eigen::Ref<Eigen::Matrix<S, G::Dim, G::Dim>>>(Jp) : tl::optional<Eigen::Ref<Eigen::Matrix<S, G::Dim, G::Dim>>>());
+  HEAD("act") o.vec("a", X.coeffs()); o.vec("pt", p); o.vec("rv", v); if (m & 1) o.mat("Ja", Ja); if (m & 2) o.mat("Jp", Jp); o.end();
 }
 static void op_identity(Ctx& c) {
   G I = G::Identity(); G X; X.setIdentity();
@@ -76,24 +82,24 @@ static void op_logchain(Ctx& c) {
   HEAD("log") o.vec("a", X.coeffs()); o.vec("rt", u.coeffs()); o.str("prov", "chain"); o.end();
 }
 static void op_rplus(Ctx& c) {
-  G X = elemA(c); T t = tanB(c); Jac Ja, Jt; G R = c.jac ? X.rplus(t, Ja, Jt) : X.rplus(t);
-  HEAD("rplus") o.vec("a", X.coeffs()); o.vec("t", t.coeffs()); o.vec("r", R.coeffs()); if (c.jac) { o.mat("Ja", Ja); o.mat("Jt", Jt); } o.end();
+  G X = elemA(c); T t = tanB(c); Jac Ja, Jt; int m = pick_mask(c); G R = X.rplus(t, opt(Ja, m & 1), opt(Jt, m & 2));
+  HEAD("rplus") o.vec("a", X.coeffs()); o.vec("t", t.coeffs()); o.vec("r", R.coeffs()); if (m & 1) o.mat("Ja", Ja); if (m & 2) o.mat("Jt", Jt); o.end();
 }
 static void op_lplus(Ctx& c) {
-  G X = elemA(c); T t = tanB(c); Jac Ja, Jt; G R = c.jac ? X.lplus(t, Ja, Jt) : X.lplus(t);
-  HEAD("lplus") o.vec("a", X.coeffs()); o.vec("t", t.coeffs()); o.vec("r", R.coeffs()); if (c.jac) { o.mat("Ja", Ja); o.mat("Jt", Jt); } o.end();
+  G X = elemA(c); T t = tanB(c); Jac Ja, Jt; int m = pick_mask(c); G R = X.lplus(t, opt(Ja, m & 1), opt(Jt, m & 2));
+  HEAD("lplus") o.vec("a", X.coeffs()); o.vec("t", t.coeffs()); o.vec("r", R.coeffs()); if (m & 1) o.mat("Ja", Ja); if (m & 2) o.mat("Jt", Jt); o.end();
 }
 static void op_rminus(Ctx& c) {
-  G Y = elemA(c); G X = Y.compose(elemD(c)); Jac Ja, Jb; T t = c.jac ? X.rminus(Y, Ja, Jb) : X.rminus(Y);
-  HEAD("rminus") o.vec("a", X.coeffs()); o.vec("b", Y.coeffs()); o.vec("rt", t.coeffs()); if (c.jac) { o.mat("Ja", Ja); o.mat("Jb", Jb); } o.end();
+  G Y = elemA(c); G X = Y.compose(elemD(c)); Jac Ja, Jb; int m = pick_mask(c); T t = X.rminus(Y, opt(Ja, m & 1), opt(Jb, m & 2));
+  HEAD("rminus") o.vec("a", X.coeffs()); o.vec("b", Y.coeffs()); o.vec("rt", t.coeffs()); if (m & 1) o.mat("Ja", Ja); if (m & 2) o.mat("Jb", Jb); o.end();
 }
 static void op_lminus(Ctx& c) {
-  G Y = elemA(c); G X = elemD(c).compose(Y); Jac Ja, Jb; T t = c.jac ? X.lminus(Y, Ja, Jb) : X.lminus(Y);
-  HEAD("lminus") o.vec("a", X.coeffs()); o.vec("b", Y.coeffs()); o.vec("rt", t.coeffs()); if (c.jac) { o.mat("Ja", Ja); o.mat("Jb", Jb); } o.end();
+  G Y = elemA(c); G X = elemD(c).compose(Y); Jac Ja, Jb; int m = pick_mask(c); T t = X.lminus(Y, opt(Ja, m & 1), opt(Jb, m & 2));
+  HEAD("lminus") o.vec("a", X.coeffs()); o.vec("b", Y.coeffs()); o.vec("rt", t.coeffs()); if (m & 1) o.mat("Ja", Ja); if (m & 2) o.mat("Jb", Jb); o.end();
 }
 static void op_between(Ctx& c) {
-  G X = elemA(c); G Y = X.compose(elemD(c)); Jac Ja, Jb; G R = c.jac ? X.between(Y, Ja, Jb) : X.between(Y);
-  HEAD("between") o.vec("a", X.coeffs()); o.vec("b", Y.coeffs()); o.vec("r", R.coeffs()); if (c.jac) { o.mat("Ja", Ja); o.mat("Jb", Jb); } o.end();
+  G X = elemA(c); G Y = X.compose(elemD(c)); Jac Ja, Jb; int m = pick_mask(c); G R = X.between(Y, opt(Ja, m & 1), opt(Jb, m & 2));
+  HEAD("between") o.vec("a", X.coeffs()); o.vec("b", Y.coeffs()); o.vec("r", R.coeffs()); if (m & 1) o.mat("Ja", Ja); if (m & 2) o.mat("Jb", Jb); o.end();
 }
 static void op_tplus(Ctx& c) {   // tangent + tangent and tangent - tangent with Jacobians
   T a = tanA(c), b = tanB(c); Jac J1, J2, J3, J4; T p = a.plus(b, J1, J2); T m = a.minus(b, J3, J4);
